@@ -216,6 +216,9 @@ pub struct World {
     pub last_ts: u64,
     /// reorg targets attempted (accepted or not) since last reset; used by C04
     pub reorg_targets: Vec<u64>,
+    /// an accepted reorg to the current height may or may not have committed (the statement does not
+    /// say); resolved by looking at the height the instance reports after the next loss of caches
+    pub noop_reorg_at: Option<u64>,
 }
 
 impl World {
@@ -238,6 +241,7 @@ impl World {
             record: true,
             last_ts: BASE_TS,
             reorg_targets: vec![],
+            noop_reorg_at: None,
         }
     }
 
@@ -775,6 +779,17 @@ impl World {
         self.stats.bump("blocks_finalised");
     }
 
+    /// after caches were lost: did the earlier reorg-to-current-height persist that height?
+    fn resolve_noop_reorg(&mut self) {
+        if let Some(n) = self.noop_reorg_at.take() {
+            if let Resp::Ok(v) = self.call("eth_blockNumber", json!([])) {
+                if hex_u64(&v) == Some(n) && self.chain.iter().any(|b| b.height == n) {
+                    self.committed = Some(n);
+                }
+            }
+        }
+    }
+
     fn roll_back_to(&mut self, target: Option<u64>) {
         match target {
             None => {
@@ -860,6 +875,7 @@ impl World {
                 let r = self.call("brc20_commitToDatabase", json!([]));
                 if r.is_ok() {
                     self.committed = self.height;
+                    self.noop_reorg_at = None;
                     self.stats.bump("commits_ok");
                 }
             }
@@ -867,6 +883,7 @@ impl World {
                 let r = self.call("brc20_clearCaches", json!([]));
                 if r.is_ok() {
                     self.open = None;
+                    self.resolve_noop_reorg();
                     let c = self.committed;
                     if self.height != c {
                         self.stats.bump("clear_lost_blocks");
@@ -891,6 +908,7 @@ impl World {
                     });
                 }
                 self.open = None;
+                self.resolve_noop_reorg();
                 let c = self.committed;
                 if self.height != c {
                     self.stats.bump("restart_lost_blocks");
@@ -924,6 +942,9 @@ impl World {
                     self.committed = Some(target);
                 } else {
                     self.stats.bump("reorg_noop");
+                    if self.committed != Some(h) {
+                        self.noop_reorg_at = Some(h);
+                    }
                 }
             }
         } else {
